@@ -68,6 +68,7 @@ theorem strcpy_s_C07_exact (cfg : Cfg) (dest dmax src n : Nat) (destbos : Bos) (
     (Or.inl ⟨fun h => absurd h (by decide), hnul⟩)
   exact ⟨code, st', he, cpyC07_of_all hg hp⟩
 
+/-- the wide twin of `strcpy_s_C07_exact` (cells are `wchar_t`, limit `RSIZE_MAX_WSTR`, known object sizes in bytes) -/
 theorem wcscpy_s_C07_exact (cfg : Cfg) (dest dmax src n : Nat) (destbos : Bos) (st : St)
     (hall : ∀ a, st.mapped a = true ∧ st.rd a = true)
     (hd : dest ≠ 0) (hs : src ≠ 0) (hne : dest ≠ src) (hpos : 0 < dmax) (hle : dmax ≤ RSIZE_MAX_WSTR)
@@ -147,6 +148,7 @@ theorem strncpy_s_C07_exact (cfg : Cfg) (dest dmax src slen m : Nat) (destbos sr
     hslenle hb hsb hrw hnz hfin
   exact ⟨code, st', he, hp.1⟩
 
+/-- the wide twin of `strncpy_s_C07_exact` (cells are `wchar_t`, limit `RSIZE_MAX_WSTR`, known object sizes in bytes) -/
 theorem wcsncpy_s_C07_exact (cfg : Cfg) (dest dmax src slen m : Nat) (destbos srcbos : Bos) (st : St)
     (hall : ∀ a, st.mapped a = true ∧ st.rd a = true)
     (hd : dest ≠ 0) (hs : src ≠ 0) (hpos : 0 < dmax) (hle : dmax ≤ RSIZE_MAX_WSTR)
@@ -180,6 +182,7 @@ theorem strncpy_s_C07_disjoint_iff (cfg : Cfg) (dest dmax src slen m : Nat) (des
     hslenle hb hsb hrw hnz hfin
   exact ⟨code, st', he, hp.2 hdisj⟩
 
+/-- the wide twin of `strncpy_s_C07_disjoint_iff` (cells are `wchar_t`, limit `RSIZE_MAX_WSTR`, known object sizes in bytes) -/
 theorem wcsncpy_s_C07_disjoint_iff (cfg : Cfg) (dest dmax src slen m : Nat) (destbos srcbos : Bos) (st : St)
     (hall : ∀ a, st.mapped a = true ∧ st.rd a = true)
     (hd : dest ≠ 0) (hs : src ≠ 0) (hpos : 0 < dmax) (hle : dmax ≤ RSIZE_MAX_WSTR)
@@ -217,6 +220,7 @@ theorem strncpy_s_C07_disjoint_partial (cfg : Cfg) (dest dmax src slen m : Nat) 
     hslenle hb hsb hrw hnz hfin
   exact ⟨code, st', he, fun hc => hex ((hp.2 hdisj).1 hc)⟩
 
+/-- the wide twin of `strncpy_s_C07_disjoint_partial` (cells are `wchar_t`, limit `RSIZE_MAX_WSTR`, known object sizes in bytes) -/
 theorem wcsncpy_s_C07_disjoint_partial (cfg : Cfg) (dest dmax src slen m : Nat) (destbos srcbos : Bos) (st : St)
     (hall : ∀ a, st.mapped a = true ∧ st.rd a = true)
     (hd : dest ≠ 0) (hs : src ≠ 0) (hpos : 0 < dmax) (hle : dmax ≤ RSIZE_MAX_WSTR)
@@ -241,6 +245,7 @@ theorem strncpy_s_C07_disjoint_witness :
       retCode (exec (strncpy_s {} 105 2 104 1 none none) endSt) = some ESOVRLP := by
   decide
 
+/-- the wide twin of `strncpy_s_C07_disjoint_witness` (cells are `wchar_t`, limit `RSIZE_MAX_WSTR`, known object sizes in bytes) -/
 theorem wcsncpy_s_C07_disjoint_witness :
     ((1 : Nat) = 1 ∧ (104 : Nat) + 1 ≤ 105) ∧ endSt.data (104 + 0) ≠ 0 ∧
       retCode (exec (wcsncpy_s {} 105 2 104 1 none none) endSt) = some ESOVRLP := by
@@ -325,6 +330,7 @@ theorem strcat_s_C07_exact (cfg : Cfg) (dest dmax src dl n : Nat) (destbos : Bos
     (Or.inl ⟨fun h => absurd h (by decide), hnul⟩)
   exact ⟨code, st', he, catC07_of_all hdl hp⟩
 
+/-- the wide twin of `strcat_s_C07_exact` (cells are `wchar_t`, limit `RSIZE_MAX_WSTR`, known object sizes in bytes) -/
 theorem wcscat_s_C07_exact (cfg : Cfg) (dest dmax src dl n : Nat) (destbos : Bos) (st : St)
     (hall : ∀ a, st.mapped a = true ∧ st.rd a = true)
     (hd : dest ≠ 0) (hs : src ≠ 0) (hpos : 0 < dmax) (hle : dmax ≤ RSIZE_MAX_WSTR)
@@ -390,6 +396,7 @@ theorem strncat_s_C07_exact (cfg : Cfg) (dest dmax src slen dl m : Nat) (destbos
     hslenle hb hsb hrw hdl hdnz hdnul hnz hfin
   exact ⟨code, st', he, hp.1⟩
 
+/-- the wide twin of `strncat_s_C07_exact` (cells are `wchar_t`, limit `RSIZE_MAX_WSTR`, known object sizes in bytes) -/
 theorem wcsncat_s_C07_exact (cfg : Cfg) (dest dmax src slen dl m : Nat) (destbos srcbos : Bos) (st : St)
     (hall : ∀ a, st.mapped a = true ∧ st.rd a = true)
     (hd : dest ≠ 0) (hs : src ≠ 0) (hpos : 0 < dmax) (hle : dmax ≤ RSIZE_MAX_WSTR)
@@ -424,6 +431,7 @@ theorem strncat_s_C07_disjoint_iff (cfg : Cfg) (dest dmax src slen dl m : Nat) (
     hslenle hb hsb hrw hdl hdnz hdnul hnz hfin
   exact ⟨code, st', he, hp.2 hdisj⟩
 
+/-- the wide twin of `strncat_s_C07_disjoint_iff` (cells are `wchar_t`, limit `RSIZE_MAX_WSTR`, known object sizes in bytes) -/
 theorem wcsncat_s_C07_disjoint_iff (cfg : Cfg) (dest dmax src slen dl m : Nat) (destbos srcbos : Bos) (st : St)
     (hall : ∀ a, st.mapped a = true ∧ st.rd a = true)
     (hd : dest ≠ 0) (hs : src ≠ 0) (hpos : 0 < dmax) (hle : dmax ≤ RSIZE_MAX_WSTR)
@@ -444,6 +452,8 @@ theorem wcsncat_s_C07_disjoint_iff (cfg : Cfg) (dest dmax src slen dl m : Nat) (
 /- FULL statement `strncat_s_C07_disjoint` (false of the model): the hypotheses of `strncat_s_C07_disjoint_iff` ⇒
 `code ≠ ESOVRLP`; fails exactly at `slen = m ∧ src + m = dest ∧ dl + m < dmax`; the same for `wcsncat_s`. -/
 
+/-- **strncat_s never rejects operands that are disjoint as objects**, except for a source whose `slen` characters end
+exactly at dest (hypothesis `hex`: exactly the point `strncat_s_C07_disjoint_iff` names) -/
 theorem strncat_s_C07_disjoint_partial (cfg : Cfg) (dest dmax src slen dl m : Nat) (destbos srcbos : Bos) (st : St)
     (hall : ∀ a, st.mapped a = true ∧ st.rd a = true)
     (hd : dest ≠ 0) (hs : src ≠ 0) (hpos : 0 < dmax) (hle : dmax ≤ RSIZE_MAX_STR)
@@ -460,6 +470,7 @@ theorem strncat_s_C07_disjoint_partial (cfg : Cfg) (dest dmax src slen dl m : Na
     hslenle hb hsb hrw hdl hdnz hdnul hnz hfin
   exact ⟨code, st', he, fun hc => hex ((hp.2 hdisj).1 hc)⟩
 
+/-- the wide twin of `strncat_s_C07_disjoint_partial` (cells are `wchar_t`, limit `RSIZE_MAX_WSTR`, known object sizes in bytes) -/
 theorem wcsncat_s_C07_disjoint_partial (cfg : Cfg) (dest dmax src slen dl m : Nat) (destbos srcbos : Bos) (st : St)
     (hall : ∀ a, st.mapped a = true ∧ st.rd a = true)
     (hd : dest ≠ 0) (hs : src ≠ 0) (hpos : 0 < dmax) (hle : dmax ≤ RSIZE_MAX_WSTR)
@@ -484,6 +495,7 @@ theorem strncat_s_C07_disjoint_witness :
       retCode (exec (strncat_s {} 105 2 104 1 none none) endSt) = some ESOVRLP := by
   decide
 
+/-- the wide twin of `strncat_s_C07_disjoint_witness` (cells are `wchar_t`, limit `RSIZE_MAX_WSTR`, known object sizes in bytes) -/
 theorem wcsncat_s_C07_disjoint_witness :
     ((1 : Nat) = 1 ∧ (104 : Nat) + 1 ≤ 105) ∧ endSt.data (104 + 0) ≠ 0 ∧ endSt.data (105 + 0) = 0 ∧
       retCode (exec (wcsncat_s {} 105 2 104 1 none none) endSt) = some ESOVRLP := by
@@ -517,6 +529,7 @@ theorem strcat_s_C07_unterm (cfg : Cfg) (dest dmax src : Nat) (destbos : Bos) (s
   rw [strcatG_eq_body _ cfg dest dmax src destbos hd hs hpos hle hb]
   exact catUnterm_of hpos hrw hdnz
 
+/-- the wide twin of `strcat_s_C07_unterm` (cells are `wchar_t`, limit `RSIZE_MAX_WSTR`, known object sizes in bytes) -/
 theorem wcscat_s_C07_unterm (cfg : Cfg) (dest dmax src : Nat) (destbos : Bos) (st : St)
     (hd : dest ≠ 0) (hs : src ≠ 0) (hpos : 0 < dmax) (hle : dmax ≤ RSIZE_MAX_WSTR)
     (hb : ∀ b, destbos = some b → dmax * SIZEOF_WCHAR_T ≤ b)
@@ -526,6 +539,7 @@ theorem wcscat_s_C07_unterm (cfg : Cfg) (dest dmax src : Nat) (destbos : Bos) (s
   rw [wcscat_s_eq_body cfg dest dmax src destbos hd hs hpos hle hb]
   exact catUnterm_of hpos hrw hdnz
 
+/-- **strncat_s (`0 < slen`), dest not terminated within `dmax`**: as `strcat_s_C07_unterm` -/
 theorem strncat_s_C07_unterm (cfg : Cfg) (dest dmax src slen : Nat) (destbos srcbos : Bos) (st : St)
     (hd : dest ≠ 0) (hs : src ≠ 0) (hpos : 0 < dmax) (hle : dmax ≤ RSIZE_MAX_STR)
     (hslen : 0 < slen) (hslenle : slen ≤ RSIZE_MAX_STR)
@@ -537,6 +551,7 @@ theorem strncat_s_C07_unterm (cfg : Cfg) (dest dmax src slen : Nat) (destbos src
   rw [strncatG_eq_body _ cfg dest dmax src slen destbos srcbos hd hs hpos hle hslen hslenle hb hsb]
   exact catUnterm_of hpos hrw hdnz
 
+/-- the wide twin of `strncat_s_C07_unterm` (cells are `wchar_t`, limit `RSIZE_MAX_WSTR`, known object sizes in bytes) -/
 theorem wcsncat_s_C07_unterm (cfg : Cfg) (dest dmax src slen : Nat) (destbos srcbos : Bos) (st : St)
     (hd : dest ≠ 0) (hs : src ≠ 0) (hpos : 0 < dmax) (hle : dmax ≤ RSIZE_MAX_WSTR)
     (hslen : 0 < slen) (hslenle : slen ≤ RSIZE_MAX_WSTR)
